@@ -168,6 +168,7 @@ type c09Replay struct {
 	A      string `json:"session_a,omitempty"`
 	B      string `json:"session_b,omitempty"`
 	Detail string `json:"detail,omitempty"`
+	Key    string `json:"key,omitempty"` // violation key of an ssid-collision pair (c09_prefix.go), kept by `-replay`
 	// KM: a key-material case (c09_keymat.go); `-replay` re-runs exactly this one
 	KM *kmReplay `json:"key_material,omitempty"`
 	// AN: an abort-notice case (c09_abort.go); `-replay` re-runs that protocol family / schedule / seed
@@ -193,6 +194,8 @@ func runC09(c *ctx) {
 		} else if err == nil && rp.TP != "" {
 			c.res.Rule = "replay of the two-party cross-session replays"
 			c.c09Doerner()
+			return
+		} else if err == nil && c.c09ReplayTagPair(rp) {
 			return
 		}
 	}
@@ -254,6 +257,8 @@ func runC09(c *ctx) {
 			}
 		}
 	}
+	// identifier sets embedding 8-byte length prefixes (c09_prefix.go)
+	c.c09PrefixEmbedding(r)
 	c.c09Replay()
 	c.c09KeyMaterial(nil)
 }
